@@ -134,9 +134,22 @@ Definition kinds : list kind := [KReg; KDir; KSymlink; KHardlink; KChar; KBlock;
 Lemma kinds_all : forall k, In k kinds.
 Proof. destruct k; simpl; tauto. Qed.
 
-Definition sweep : bool :=
-  forallb (fun m => forallb (fun k => fuse_mode (stat_mode k m) =? posix_mode k m) kinds)
-          (map Z.of_nat (seq 0 4096)).
+Fixpoint check_upto (n : nat) (f : Z -> bool) : bool :=
+  match n with
+  | O => true
+  | S k => f (Z.of_nat k) && check_upto k f
+  end.
+
+Lemma check_upto_spec : forall n f, check_upto n f = true -> forall z, 0 <= z < Z.of_nat n -> f z = true.
+Proof.
+  induction n as [|k IH]; intros f H z Hz; [lia|].
+  simpl in H. apply andb_true_iff in H. destruct H as (H1 & H2).
+  destruct (Z.eq_dec z (Z.of_nat k)) as [->|Hne]; [assumption|].
+  apply IH; [assumption|lia].
+Qed.
+
+Definition sweep_fun (m : Z) : bool := forallb (fun k => fuse_mode (stat_mode k m) =? posix_mode k m) kinds.
+Definition sweep : bool := check_upto (Z.to_nat 4096) sweep_fun.
 
 Lemma sweep_ok : sweep = true.
 Proof. vm_compute. reflexivity. Qed.
@@ -161,10 +174,9 @@ Proof.
   set (m' := Z.land m 4095).
   assert (Hr : 0 <= m' < 4096).
   { unfold m'. change 4095 with (Z.ones 12). rewrite Z.land_ones by lia. apply Z.mod_pos_bound. lia. }
-  pose proof sweep_ok as Hs. unfold sweep in Hs. rewrite forallb_forall in Hs.
-  assert (Hin : In m' (map Z.of_nat (seq 0 4096))).
-  { apply in_map_iff. exists (Z.to_nat m'). split; [lia|]. apply in_seq. lia. }
-  specialize (Hs _ Hin). rewrite forallb_forall in Hs. specialize (Hs k (kinds_all k)).
+  assert (Hs : sweep_fun m' = true).
+  { apply (check_upto_spec (Z.to_nat 4096) sweep_fun sweep_ok). rewrite Z2Nat.id by lia. exact Hr. }
+  unfold sweep_fun in Hs. rewrite forallb_forall in Hs. specialize (Hs k (kinds_all k)).
   apply Z.eqb_eq in Hs. exact Hs.
 Qed.
 
